@@ -7,6 +7,7 @@ import hashlib
 import os
 import re
 import subprocess
+import threading
 import sys
 import fcntl
 from concurrent.futures import ThreadPoolExecutor
@@ -88,7 +89,7 @@ def write_if_changed(path, data):
     except OSError:
         pass
     os.makedirs(os.path.dirname(path), exist_ok=True)
-    tmp = path + ".tmp%d" % os.getpid()
+    tmp = path + ".tmp%d_%d" % (os.getpid(), threading.get_ident())
     open(tmp, "w").write(data)
     os.replace(tmp, path)
 
@@ -130,7 +131,7 @@ def compile_one(cc, flags, src, objdir, extra_key=""):
     obj = os.path.join(objdir, os.path.basename(src).rsplit(".", 1)[0] + "-" + key + ".o")
     if not os.path.exists(obj):
         os.makedirs(objdir, exist_ok=True)
-        tmp = obj + ".tmp%d" % os.getpid()
+        tmp = obj + ".tmp%d_%d" % (os.getpid(), threading.get_ident())
         r = sh([cc] + flags + ["-c", src, "-o", tmp], capture_output=True, text=True)
         if r.returncode != 0:
             sys.stderr.write("COMPILE FAILED: %s\n%s\n" % (src, r.stderr))
@@ -208,7 +209,7 @@ def compile_cxx(src, extra_flags=(), fuzz=False):
         os.makedirs(objdir, exist_ok=True)
         with Lock("core-" + key):
             if not os.path.exists(obj):
-                tmp = obj + ".tmp%d" % os.getpid()
+                tmp = obj + ".tmp%d_%d" % (os.getpid(), threading.get_ident())
                 r = sh(["clang++"] + fl + ["-c", src, "-o", tmp], capture_output=True, text=True)
                 if r.returncode != 0:
                     sys.stderr.write("COMPILE FAILED: %s\n%s\n" % (src, r.stderr))
@@ -220,7 +221,7 @@ def compile_cxx(src, extra_flags=(), fuzz=False):
 def link(out, objs, libs=(), wraps=(), fuzz=False, extra=()):
     os.makedirs(os.path.dirname(out), exist_ok=True)
     # link to a private name and rename: another check may be executing (or linking) the same binary right now
-    tmp = out + ".tmp%d" % os.getpid()
+    tmp = out + ".tmp%d_%d" % (os.getpid(), threading.get_ident())
     cmd = ["clang++"] + SAN + (["-fsanitize=fuzzer"] if fuzz else []) + ["-o", tmp] + list(objs)
     for w in wraps:
         cmd.append("-Wl,--wrap=" + w)
@@ -234,7 +235,7 @@ def link(out, objs, libs=(), wraps=(), fuzz=False, extra=()):
         if m:
             try:
                 allobjs = build_lib(m.group(1))
-                ar = os.path.join(BUILD, "obj", "whole-%s-%d.a" % (m.group(1), os.getpid()))
+                ar = os.path.join(BUILD, "obj", "whole-%s-%d_%d.a" % (m.group(1), os.getpid(), threading.get_ident()))
                 if sh(["ar", "rcs", ar] + sorted(allobjs.values()), capture_output=True, text=True).returncode == 0:
                     r = sh(cmd + [ar] + list(libs), capture_output=True, text=True)
                     os.unlink(ar)
